@@ -117,6 +117,28 @@ func main() {
 		}
 		return
 	}
+	// forced: the per-sender mempool limit (MaxTxsPerBlock) and its reset at Commit
+	{
+		g := &appdrv.Gen{U: u, R: run.RNG.Fork()}
+		ge := g.RandomGenesis()
+		ge.Keypers = [][]byte{u.Addrs[0].Bytes(), u.Addrs[1].Bytes()}
+		ge.Threshold = 1
+		h := appdrv.History{Genesis: ge}
+		nonce := uint64(5000)
+		for b := int64(1); b <= 2; b++ {
+			h.Calls = append(h.Calls, appdrv.Call{Kind: "begin", Height: b})
+			for i := 0; i < 13; i++ {
+				nonce++
+				raw := appdrv.SignTx(u.Keys[0], ge.ChainID, nonce, shmsg.NewBlockSeen(uint64(i)))
+				h.Calls = append(h.Calls, appdrv.Call{Kind: "check", Tx: raw, Note: "limit"})
+				if i%5 == 0 {
+					h.Calls = append(h.Calls, appdrv.Call{Kind: "check", Tx: raw, Note: "same nonce in mempool"})
+				}
+			}
+			h.Calls = append(h.Calls, appdrv.Call{Kind: "end", Height: b}, appdrv.Call{Kind: "commit"})
+		}
+		emit(run, h, "forced:mempool-limit")
+	}
 	n := run.Scale(150, 4000)
 	for i := 0; i < n; i++ {
 		g := &appdrv.Gen{U: u, R: run.RNG.Fork(), Weird: i%5 == 0}
